@@ -30,11 +30,11 @@ func VerifToUpperLower(r rune) (rune, rune, bool) { return tables.ToUpperLower(r
 
 func VerifLower(c byte) byte { return _lower[c] }
 
-func VerifBytealgIndexByte(b []byte, c byte) int         { return bytealg.IndexByte(b, c) }
-func VerifBytealgIndexByteString(s string, c byte) int   { return bytealg.IndexByteString(s, c) }
-func VerifBytealgCount(b []byte, c byte) int             { return bytealg.Count(b, c) }
-func VerifBytealgCountString(s string, c byte) int       { return bytealg.CountString(s, c) }
-func VerifBytealgIndexNonASCII(s string) int             { return bytealg.IndexNonASCII(s) }
-func VerifBytealgIndexByteNonASCII(b []byte) int         { return bytealg.IndexByteNonASCII(b) }
-func VerifBytealgCutover(n int) int                      { return bytealg.Cutover(n) }
-func VerifBytealgIndexString(s, substr string) int       { return bytealg.IndexString(s, substr) }
+func VerifBytealgIndexByte(b []byte, c byte) int       { return bytealg.IndexByte(b, c) }
+func VerifBytealgIndexByteString(s string, c byte) int { return bytealg.IndexByteString(s, c) }
+func VerifBytealgCount(b []byte, c byte) int           { return bytealg.Count(b, c) }
+func VerifBytealgCountString(s string, c byte) int     { return bytealg.CountString(s, c) }
+func VerifBytealgIndexNonASCII(s string) int           { return bytealg.IndexNonASCII(s) }
+func VerifBytealgIndexByteNonASCII(b []byte) int       { return bytealg.IndexByteNonASCII(b) }
+func VerifBytealgCutover(n int) int                    { return bytealg.Cutover(n) }
+func VerifBytealgIndexString(s, substr string) int     { return bytealg.IndexString(s, substr) }
